@@ -84,12 +84,49 @@ def positive_vars_of(senv: SymEnv) -> set:
     return out
 
 
+SYMBOLIC_OBS = [False]
+
+
 def setup_leaves(sc: Circuit, senv: SymEnv, monotone: bool, normalized: bool = False, extra_specs: dict | None = None):
     specs = families.leaf_specs(sc, monotone, normalized)
     if extra_specs:
         specs.update(extra_specs)
-    leaves = circuit_leaves(sc)
+    # leaves of the circuit and of every operand circuit it was derived from (the operand is compiled
+    # in the same pipeline, and the operator oracles evaluate the operand's reference semantics)
+    leaves = []
+    seen_c = set()
+
+    def visit(c):
+        if id(c) in seen_c:
+            return
+        seen_c.add(id(c))
+        if c.operation is not None:
+            for o in c.operation.operands:
+                visit(o)
+        for p in circuit_leaves(c):
+            if p not in leaves:
+                leaves.append(p)
+
+    visit(sc)
+    obs_params = {}
+    if SYMBOLIC_OBS[0]:
+        from cirkit.symbolic import layers as SL_
+
+        def scan(c):
+            if c.operation is not None:
+                for o in c.operation.operands:
+                    scan(o)
+            for sl in c.layers:
+                if isinstance(sl, SL_.EvidenceLayer):
+                    for n in sl.observation.nodes:
+                        if isinstance(n, SP.ConstantParameter):
+                            obs_params[n] = sl
+
+        scan(sc)
     for p in leaves:
+        if p in obs_params:
+            senv.new_observation(p, obs_params[p])
+            continue
         if isinstance(p, SP.ConstantParameter):
             continue
         senv.new_param(p, specs.get(p, LeafSpec(positive=monotone)))
@@ -174,7 +211,15 @@ def to_linear(out: torch.Tensor, semiring: str) -> np.ndarray:
     return torch.exp(out.detach()).numpy()
 
 
-def concrete_eval(circuit_desc, semiring, fold, optimize, B, overrides, seed, monotone, build=None, normalized=False):
+def reference(oracle, circuit_desc, sc, senv, rows):
+    if oracle is None:
+        return [refsem.eval_circuit(sc, row, senv.penv) for row in rows]
+    from . import opcheck
+
+    return {"pipe": opcheck.pipe_oracle}[oracle](circuit_desc, sc, senv, rows)
+
+
+def concrete_eval(circuit_desc, semiring, fold, optimize, B, overrides, seed, monotone, build=None, normalized=False, oracle=None):
     """returns (ok, message, details)"""
     T.reset_interning()
     sc = (build or families.build)(circuit_desc)
@@ -201,8 +246,11 @@ def concrete_eval(circuit_desc, semiring, fold, optimize, B, overrides, seed, mo
         lin = lin[None]
     worst = 0.0
     bad = None
+    refs_ = reference(oracle, circuit_desc, sc, senv, rows)
     for b, row in enumerate(rows):
-        ref = refsem.eval_circuit(sc, row, senv.penv)
+        ref = refs_[b]
+        if len(ref) != O:
+            return False, f"number of outputs {O} != {len(ref)} required by the operator's definition", {}
         for o, vec in enumerate(ref):
             for k, rv in enumerate(vec):
                 want_v = rv.concrete(senv.ctx.env)
@@ -234,6 +282,7 @@ def eval_case(
     compare_flags: bool = False,
     normalized: bool = False,
     add_fold_batch: bool = True,
+    oracle: str | None = None,
 ):
     """Trace the circuit for every flag pair and batch size; compare with the reference semantics.
     If compare_flags, the (F,F) trace is additionally used as oracle for the other flag pairs."""
@@ -280,6 +329,8 @@ def eval_case(
             "seed": seed,
             "monotone": monotone,
             "normalized": normalized,
+            "oracle": oracle,
+            "symbolic_obs": SYMBOLIC_OBS[0],
         }
         res["violations"].append({"signature": sig, "detail": detail, "replay": rp, "hash": case_hash(rp)})
 
@@ -303,7 +354,7 @@ def eval_case(
                 raise
             except Exception as e:  # raised by the real code
                 tb = traceback.format_exc()
-                ok, msg, _ = concrete_eval(circuit_desc, semiring, fold, opt, B, {}, seed, monotone, build, normalized)
+                ok, msg, _ = concrete_eval(circuit_desc, semiring, fold, opt, B, {}, seed, monotone, build, normalized, oracle)
                 T.reset_interning  # noqa (concrete_eval reset the interning: abort this case's symbolic part)
                 if ok:
                     raise HarnessError(f"exception only under the shadow engine: {type(e).__name__}: {e}\n{tb[-1200:]}")
@@ -322,7 +373,7 @@ def eval_case(
                         break
             want = (B, O, K) if sc.scope else (O, K)
             if tuple(out.shape) != want:
-                ok, msg, _ = concrete_eval(circuit_desc, semiring, fold, opt, B, {}, seed, monotone, build, normalized)
+                ok, msg, _ = concrete_eval(circuit_desc, semiring, fold, opt, B, {}, seed, monotone, build, normalized, oracle)
                 violation("shape", fold, opt, B, f"output shape {tuple(out.shape)} != {want}; replay: {msg}")
                 res["status"] = "violation"
                 _finish(res, sess, senv, circuit_desc, semiring, nparams, sizes, ops)
@@ -330,8 +381,13 @@ def eval_case(
             if not sc.scope:
                 arr = arr[None]
             if ref is None:
-                ref = [refsem.eval_circuit(sc, row, senv.penv) for row in rows]
+                ref = reference(oracle, circuit_desc, sc, senv, rows)
                 refs[B] = (x, rows, ref)
+                if len(ref[0]) != O or any(len(v) != K for v in ref[0]):
+                    violation("outputs", fold, opt, B, f"circuit has {O} outputs x {K} units, the operator's definition gives {len(ref[0])} x {[len(v) for v in ref[0]]}")
+                    res["status"] = "violation"
+                    _finish(res, sess, senv, circuit_desc, semiring, nparams, sizes, ops)
+                    return res
             sess.sanity()
             for b in range(B):
                 for o in range(O):
@@ -344,7 +400,17 @@ def eval_case(
                         if r == "cex":
                             cex = sess.cex.pop()
                             ov = {s.data: v for s, v in cex["env"].items() if s.op == "var" and not s.data.startswith(("MAX#", "LOGABS", "ARG"))}
-                            okc, msg, _ = concrete_eval(circuit_desc, semiring, fold, opt, B, ov, seed, monotone, build, normalized)
+                            # the abstract model leaves E[.]/MAX atoms free; if the goal already fails at the
+                            # (definition-consistent) valuation of the trace, replay that one instead
+                            try:
+                                holds_here = _goal_holds_numerically(goal, senv.ctx.env)
+                            except Exception:
+                                holds_here = True
+                            if not holds_here:
+                                ov = {}
+                            else:
+                                ov.update(softmax_overrides(senv.ctx, cex["env"]))
+                            okc, msg, _ = concrete_eval(circuit_desc, semiring, fold, opt, B, ov, seed, monotone, build, normalized, oracle)
                             if okc:
                                 # not reproduced with the solver's model: try the trace valuation itself
                                 res["inconclusive"].append(label + " (solver model not reproduced on the real code)")
@@ -364,7 +430,7 @@ def eval_case(
             check_obligations(sess, senv, f"fold={fold},opt={opt},B={B}", viol, circuit_desc)
             for v in viol:
                 ov = v["env"]
-                okc, msg, _ = concrete_eval(circuit_desc, semiring, fold, opt, B, ov, seed, monotone, build, normalized)
+                okc, msg, _ = concrete_eval(circuit_desc, semiring, fold, opt, B, ov, seed, monotone, build, normalized, oracle)
                 if not okc:
                     violation("definedness:" + v["why"], fold, opt, B, msg, ov)
                     res["status"] = "violation"
@@ -406,3 +472,44 @@ def _finish(res, sess, senv, circuit_desc, semiring, nparams, sizes, ops):
         "largest_goal": {"label": big[0][0], "term_nodes": big[0][1]} if big else None,
         "aten_ops_shadowed": sorted(ops)[:40],
     }
+
+
+def _goal_holds_numerically(goal, env) -> bool:
+    """evaluate an equality goal (or conjunction) with a relative tolerance at a concrete valuation."""
+    eqs = goal.args if goal.op == "and" else (goal,)
+    memo: dict = {}
+    for e in eqs:
+        if e.op != "eq":
+            if not T.evaluate1(e, env, memo):
+                return False
+            continue
+        a = T.evaluate1(e.args[0], env, memo)
+        b = T.evaluate1(e.args[1], env, memo)
+        if not V.close(a, b, rtol=1e-6, atol=1e-10):
+            return False
+    return True
+
+
+def softmax_overrides(ctx, env) -> dict:
+    """translate model values of the simplex atoms SM_j back to parameters: theta_j = log SM_j."""
+    import math
+
+    out = {}
+    for key, vals_ in ctx._sm.items():
+        ws = []
+        ok = True
+        for v in vals_[:-1]:
+            a = v.re
+            if a not in env:
+                ok = False
+                break
+            ws.append(float(env[a]))
+        if not ok:
+            continue
+        last = 1.0 - sum(ws)
+        ws.append(last)
+        if any(w <= 0 for w in ws):
+            continue
+        for var, w in zip(ctx._sm_vars[key], ws):
+            out[var.data] = math.log(w)
+    return out
